@@ -677,6 +677,27 @@ fn remapped(case: &crate::props::c07::Case, obs: &mut Obs) -> PropResult {
 	Ok(())
 }
 
+fn corpus(ctx: &mut Ctx) {
+	let files = crate::corpus::load();
+	ctx.run_enum("corpus_javac", |rec| {
+		for (name, bytes) in &files {
+			let mut obs = rec.obs();
+			let r = crate::engine::no_panic(|| -> PropResult {
+				let stats = read_write_check(bytes, &mut obs).map_err(|e| format!("{name}: {e}"))?;
+				if let Some(s) = stats {
+					obs.label_if(s.wide_gotos > 0, "written_goto_w");
+					obs.label_if(s.ldc_w > 0, "written_ldc_w");
+					obs.label_if(s.max_code > 32768, "code>32768");
+				}
+				obs.nontrivial();
+				Ok(())
+			})
+			.and_then(|x| x);
+			rec.case(|| serde_json::json!({"corpus_class": name, "bytes": bytes.len()}), crate::engine::fnv64(bytes), obs, r);
+		}
+	});
+}
+
 pub fn run(ctx: &mut Ctx) {
 	crate::engine::silence_stderr();
 	ctx.rule = "trees are obtained by duke::read_class from (a) class models of C01's generator under generated encodings, (c) the same after a renaming by dukebox::remap with a generated remapper, and (b) geometry classes: a filler method first-uses >=256 constants so that `ldc`s of the second method grow to `ldc_w` when re-written, stretching jumps laid out at 32767+-8 / -32768+-8 (if*/goto/jsr, forward/backward, nested so that widening one jump pushes another over, switches behind the stretched region, locals around 255/256/65535, total size around 65535). Oracle: duke::write_class output passes the harness's strict JVMS decoder (indices, tags, exact lengths, code limits, boundaries, padding) and decodes to the projection of the tree, where an expected `if<c> T` may appear as `if<!c> +2; goto_w T` and every index-bearing table entry is compared through the alignment; an Err is accepted only if some method cannot fit 65535 bytes in its worst-case encoding. Non-trivial = (a) method with branch and pool reference, (b) output contains a widened jump or a grown ldc; distinct by case hash".into();
@@ -690,4 +711,5 @@ pub fn run(ctx: &mut Ctx) {
 		|| (proptest::collection::vec(class_stream(), 1..=3), choices(), proptest::collection::vec(any::<u8>(), 0..120), 0u8..2).prop_map(|(streams, ch, map_stream, input_form)| crate::props::c07::Case { streams, ch, map_stream, input_form }),
 		remapped,
 	);
+	corpus(ctx);
 }
